@@ -2,6 +2,7 @@ package main
 
 import (
 	"fmt"
+	"go/token"
 	"strings"
 
 	"golang.org/x/tools/go/ssa"
@@ -166,4 +167,130 @@ func c17FinalisedOnce(c *Ctx, pp string) {
 	if n < 1 {
 		c.Unresolved("C17.R9", "a call of RouteRule.FinalizeRequestHeaders in pkg/proxy")
 	}
+}
+
+// c17RewriteReachesH2Upstream (R10): a rewritten path is what the HTTP/2 upstream sees.
+// prefix_rewrite / regex_rewrite publish their result through the path variable (types.VarPath) only. The HTTP/1 client
+// and the HTTP/2 client for non-HTTP/2 downstreams build the outgoing target from that variable; a request that came from
+// an HTTP/2 downstream carries its own *http.Request, which is forwarded as received. Clause: in the HTTP/2 client's
+// AppendHeaders no path reaches NewMClientStream on which the request's URL was neither (re)built from the path variable
+// nor found equal to it (path == "" / URL == nil / path == URL.Path).
+func c17RewriteReachesH2Upstream(c *Ctx) {
+	fn := c.M("pkg/stream/http2", "clientStream", "AppendHeaders")
+	if fn == nil {
+		c.Unresolved("C17.R10", "pkg/stream/http2.clientStream.AppendHeaders")
+		return
+	}
+	// V: variable.GetString(ctx, types.VarPath)
+	var v ssa.Value
+	for _, cs := range callsIn(fn, false, func(cc *ssa.CallCommon) bool { return strings.HasSuffix(calleeName(cc), "variable.GetString") }) {
+		args := cs.Instr.Common().Args
+		if len(args) == 2 {
+			if k, ok := constStringVal(stripIface(args[1])); ok && k == "x-mosn-path" {
+				for _, r := range refs(cs.Instr.(ssa.Value)) {
+					if ex, isE := r.(*ssa.Extract); isE && ex.Index == 0 {
+						v = ex
+					}
+				}
+			}
+		}
+	}
+	mk := callsIn(fn, false, func(cc *ssa.CallCommon) bool { return strings.HasSuffix(calleeName(cc), "NewMClientStream") })
+	if v == nil || len(mk) != 1 {
+		c.Unresolved("C17.R10", "the path variable read / the NewMClientStream call in the HTTP/2 client's AppendHeaders")
+		return
+	}
+	// values that carry V: V itself, phis/loads of locals it is stored to
+	carries := map[ssa.Value]bool{v: true}
+	for changed := true; changed; {
+		changed = false
+		forEachInstr(fn, false, func(_ *ssa.Function, in ssa.Instruction) {
+			switch x := in.(type) {
+			case *ssa.Store:
+				if carries[x.Val] && !carries[x.Addr] {
+					if _, isAl := x.Addr.(*ssa.Alloc); isAl {
+						carries[x.Addr] = true
+						changed = true
+					}
+				}
+			case *ssa.UnOp:
+				if x.Op == token.MUL && carries[x.X] && !carries[x] {
+					carries[x] = true
+					changed = true
+				}
+			case *ssa.Phi:
+				for _, e := range x.Edges {
+					if carries[e] && !carries[x] {
+						carries[x] = true
+						changed = true
+					}
+				}
+			}
+		})
+	}
+	// S: stores of V into a url.URL's Path (composite literal or assignment) whose URL is then stored into a request, or directly
+	isS := func(in ssa.Instruction) bool {
+		st, ok := in.(*ssa.Store)
+		if !ok || !carries[st.Val] {
+			return false
+		}
+		tn, f, _, okf := fieldAddrInfo(st.Addr)
+		return okf && f == "Path" && strings.HasSuffix(tn, "net/url.URL")
+	}
+	// the URL written with V must be the one installed in the request: require a store to Request.URL after it
+	isURLInstall := func(in ssa.Instruction) bool {
+		st, ok := in.(*ssa.Store)
+		if !ok {
+			return false
+		}
+		tn, f, _, okf := fieldAddrInfo(st.Addr)
+		return okf && f == "URL" && strings.HasSuffix(tn, "net/http.Request")
+	}
+	edgeOK := func(from, to *ssa.BasicBlock) bool {
+		ifi, ok := from.Instrs[len(from.Instrs)-1].(*ssa.If)
+		if !ok || from.Succs[0] == from.Succs[1] {
+			return true
+		}
+		taken := from.Succs[0] == to
+		bo, ok := ifi.Cond.(*ssa.BinOp)
+		if !ok || (bo.Op != token.EQL && bo.Op != token.NEQ) {
+			return true
+		}
+		eqEdge := (bo.Op == token.EQL) == taken // on this edge X == Y holds
+		var other ssa.Value
+		if carries[bo.X] {
+			other = bo.Y
+		} else if carries[bo.Y] {
+			other = bo.X
+		}
+		if other != nil {
+			if k, isK := constStringVal(other); isK && k == "" && eqEdge {
+				return false // path variable empty: nothing to apply
+			}
+			if _, f, _, okf := loadedField(other); okf && f == "Path" && eqEdge {
+				return false // unchanged
+			}
+		}
+		// URL == nil
+		if _, f, _, okf := loadedField(bo.X); okf && f == "URL" && isNilConst(bo.Y) && eqEdge {
+			return false
+		}
+		return true
+	}
+	target := mk[0].Instr
+	// a path from entry to the request hand-over that passes no (Path := V ; Request.URL := that URL) pair and no excuse edge
+	bad := existsPathEdges(fn, nil, func(in ssa.Instruction) bool { return in == target }, func(in ssa.Instruction) bool {
+		// the install is the stop; it only counts when a Path := V store dominates it or precedes in the same block chain
+		if !isURLInstall(in) {
+			return false
+		}
+		ok := false
+		forEachInstr(fn, false, func(_ *ssa.Function, x ssa.Instruction) {
+			if isS(x) && (instrDominates(x, in)) {
+				ok = true
+			}
+		})
+		return ok
+	}, edgeOK)
+	c.Check("C17.R10", funcKey(fn)+":rewritten-path-reaches-upstream", fn.Pos(), bad == nil, "on every path the outgoing request's URL is rebuilt from the path variable or found equal to it", "the HTTP/2 client can hand a request to the upstream whose URL was neither rebuilt from the path variable nor compared with it (a request that came from an HTTP/2 downstream is forwarded with its received URL): a configured prefix_rewrite / regex_rewrite is silently ignored on HTTP/2 to HTTP/2 routes")
 }
